@@ -76,7 +76,7 @@ package events
 //@   assigns nothing
 //@   ensures len(dst) == (r1.end - r1.start) + (r2 == nil ? 0 : r2.end - r2.start)
 //@   ensures forall j int :: 0 <= j && j < r1.end - r1.start ==> dst[j] == e.events[r1.start + j]
-//@   ensures r2 != nil ==> (forall j int :: 0 <= j && j < r2.end - r2.start ==> dst[(r1.end - r1.start) + j] == e.events[r2.start + j])
+//@   ensures r2 != nil ==> (forall k int :: r1.end - r1.start <= k && k < len(dst) ==> dst[k] == e.events[r2.start + (k - (r1.end - r1.start))])
 
 //@ func (e *eventRingBuffer) getEventsFromID(id uint64, count uint64) (res []*si.EventRecord, lowest uint64, last uint64)
 //@   props C20
